@@ -91,6 +91,27 @@ def _acc_chunk(args):
     return out
 
 
+def _rep_chunk(items):
+    import warnings
+    os.chdir("/tmp")
+    warnings.simplefilter("ignore")
+    if _REPO not in sys.path:
+        sys.path.insert(0, _REPO)
+    from harness import drive
+    from sqllineage.core.metadata.dummy import DummyMetaDataProvider
+    out = []
+    for it in items:
+        provider = DummyMetaDataProvider(it["metadata"])
+        ev = []
+        for rep in range(3):
+            d = drive.dump(it["sql"], it["dialect"], provider=provider)
+            for k in ("nodes", "col_nodes", "col_edge_recs"):
+                d.pop(k, None)
+            ev.append({"a": "dump", "mutate": False, "digest": hashlib.sha1(json.dumps(d, sort_keys=True, default=str).encode()).hexdigest()[:12], "seed": rep})
+        out.append({"kind": "repeat", "ev": ev, "ref": {"dump": ""}, "script": -1})
+    return out
+
+
 SEED_DRIVER = r'''
 import sys, json, os, hashlib, re
 sys.path.insert(0, sys.argv[3])
@@ -134,6 +155,9 @@ def run(chk):
     scripts = [("insert into t1 select a, b from (select a, b from s1) q; insert into t2 select * from t1 join s2 on t1.a = s2.a; select a from t2", "ansi"),
                ("create table m as select c1, c2 from src; insert into tgt select c1 from m union all select c1 from (select c1 from other) z; drop table x", "ansi"),
                ("with c as (select k, v from base) insert into out1 select c.k, sum(c.v) over (partition by c.k) as s from c", "ansi")]
+    # target-only tables (DDL, INSERT ... VALUES), a self loop, a rename and a drop: every role set is non-empty
+    scripts.append(("create table ddl_only (x int); insert into vals values (1, 2); insert into lp select * from lp; "
+                    "insert into t2 select a from s1; alter table t2 rename to t3; insert into t4 select a from t3; drop table s9", "ansi"))
     if not quick:
         multi = [c for c in corpus if ";" in c["sql"].strip().rstrip(";") and c["metadata"] is None][:4]
         scripts += [(c["sql"], c["dialect"]) for c in multi]
@@ -150,6 +174,11 @@ def run(chk):
     items = [c for c in corpus if len(c["sql"]) < 4000]
     items.append({"sql": "insert into s.t select * from s.a join s.b on s.a.i = s.b.i", "dialect": "ansi", "metadata": {"s.a": ["i", "x"], "s.b": ["i", "y"]},
                   "origin": "pinned"})
+    # the order a wildcard over a join expands in decides the positions a later INSERT without column list maps to (KF-C11-5)
+    items.append({"sql": "create table s.tgt as select * from s.a join s.b on a.i = b.j; insert into s.tgt select p, q, r, w from s.c",
+                  "dialect": "ansi", "metadata": {"s.a": ["i", "x"], "s.b": ["j", "y"], "s.c": ["p", "q", "r", "w"]}, "origin": "pinned"})
+    items.append({"sql": "create table s.tgt as select * from s.b y join (select k, l from s.q) z on 1 = 1 join s.a on 1 = 1; insert into s.tgt select p, q, r, w, v, u from s.c",
+                  "dialect": "ansi", "metadata": {"s.a": ["i", "x"], "s.b": ["j", "y"], "s.c": ["p", "q", "r", "w", "v", "u"]}, "origin": "pinned"})
     items += inputs.script_items(chk, 300 if quick else 3000, chk.seed + 2)
     if quick:
         pinned = [x for x in items if x.get("origin") == "pinned"]
@@ -186,6 +215,26 @@ def run(chk):
             seed_items.append(it)
             chk.count(["seeds", it["sql"], it["dialect"]], nontrivial=True)
     chk.cov["hash_seeds"] = seeds
+    # ---------------- repetition in one process with one provider object
+    rep_items = [c for c in corpus if c["metadata"] and len(c["sql"]) < 4000]
+    rep_items += [{"sql": "insert into s.t select * from stg.orders; create table stg.orders as select a, b from s.src; "
+                          "insert into s.u select * from stg.orders", "dialect": "ansi",
+                   "metadata": {"s.src": ["a", "b"]}},
+                  {"sql": "create table s.m as select * from s.a; insert into s.t select * from s.m", "dialect": "ansi", "metadata": {"s.a": ["i", "x"]}},
+                  {"sql": "insert into s.t select * from s.m; drop table s.m; create table s.m as select i from s.a", "dialect": "ansi",
+                   "metadata": {"s.a": ["i", "x"], "s.m": ["old"]}}]
+    if quick:
+        rep_items = rep_items[-60:]
+    pool = mp.Pool(16)
+    try:
+        res = pool.map(_rep_chunk, chunks(rep_items, 16))
+    finally:
+        pool.terminate()
+    rep_traces = [x for part in res for x in part]
+    for it in rep_items:
+        chk.count(["repeat", it["sql"], it["dialect"]], nontrivial=True)
+        seed_items.append(it)
+    seed_traces += rep_traces
     allt = traces + seed_traces
     tcfg = os.path.join(tlc.SPEC, "Trace_Accessors.cfg")
     verdicts = {}
@@ -220,7 +269,8 @@ def run(chk):
     chk.cov["rule"] = ("cases = (a) call sequences printed by TLC from Accessors.tla (all of length <= %d over 10 accessors x 'caller mutates the "
                        "returned object', plus simulated longer ones) replayed on a fresh real runner for each of %d scripts, every answer "
                        "compared by TLC with the single-call reference; (b) %d corpus / generated scripts dumped in subprocesses started with "
-                       "PYTHONHASHSEED in %s, dumps compared by TLC. non-trivial = at least two calls / any seed comparison."
+                       "PYTHONHASHSEED in %s, dumps compared by TLC; (c) scripts with metadata analysed three times in one process with one provider "
+                       "object, dumps compared by TLC. non-trivial = at least two calls / any seed comparison."
                        % (2 if quick else 3, len(scripts), len(seed_traces), seeds))
     chk.assumptions += ["anonymous subquery names (hash of the query text) are canonicalised before comparison",
                         "graph-internal node orders are not part of the compared dump; everything the public accessors return is"]
